@@ -25,7 +25,7 @@ XPROC_THOROUGH = dict(batches=32, per_batch=400, hashseeds=4)
 RULE = ("one run = one scenario (seeded component x problem x parameters x seed) executed in a reference environment and in several "
         "perturbed ones drawn by the scheduler: other prior states of the global random/numpy/torch generators, interference "
         "injected mid-run at model call-backs, listener call-backs and private-stream draws, reused learner/planner objects, models "
-        "with warm caches, a first run aborted by an exception from a model call-back, and the unpatched library; plus batches "
+        "with warm caches, a first run aborted by an exception from a model call-back, another seeded run nested inside a call-back of the run, and the unpatched library; plus batches "
         "of scenarios executed in fresh interpreters under different PYTHONHASHSEED values; distinct = distinct digest of (scenario, "
         "environment schedule, injection log); non-trivial = the reference run returned a result and >=1 perturbed environment was compared")
 REAL = ["all seeded msdm components: LAOStar, LRTDP, AStarSearch, BreadthFirstSearch, QLearning, SARSA, ExpectedSARSA, DoubleQLearning, RMAX, "
@@ -63,7 +63,7 @@ def preload():
     import msdm.domains.cliffwalking, msdm.domains.tiger, msdm.domains.loadunload, msdm.domains.heavenorhell  # noqa
 
 
-ENVS = ('prior', 'midrun', 'midrun', 'reuse', 'warm', 'abort', 'unpatched', 'twin')
+ENVS = ('prior', 'midrun', 'midrun', 'reuse', 'warm', 'abort', 'unpatched', 'twin', 'nested')
 
 
 def gen_case(rng, tier, idx):
@@ -172,7 +172,7 @@ class Cotenant:
         self.where = where
 
 
-def _run(sc, ctx, sched, *, patched=True, cot=None, algo=None, problem=None, warm=False, abort_at=None):
+def _run(sc, ctx, sched, *, patched=True, cot=None, algo=None, problem=None, warm=False, abort_at=None, nest=None):
     """One execution of the scenario.  Returns (canonical result, algo, problem)."""
     comp = sc['component']
     st = dict(n=0)
@@ -184,6 +184,16 @@ def _run(sc, ctx, sched, *, patched=True, cot=None, algo=None, problem=None, war
             raise InjectedAbort()
         if cot is not None:
             cot.event(f"{name}#{st['n']}", comp)
+        if nest is not None and st['n'] == nest['at'] and 'out' not in nest:
+            # fault F10: while this run is suspended inside a call-back into user code, that code runs ANOTHER seeded
+            # component to completion (a model whose reward consults a planner, an option that plans lazily, a listener
+            # that evaluates the current policy with roll-outs); both runs are live in the process at the same time
+            sched.fire('F10_nested_run')
+            saved = (ctx.cb_hooks, sched.hooks, ctx.last)
+            try:
+                nest['out'] = _run(nest['scenario'], ctx, sched, patched=patched)[0]
+            finally:
+                ctx.cb_hooks, sched.hooks, ctx.last = saved
 
     ctx.cb_hooks = [on_cb]
     sched.hooks = [lambda kind: on_cb('draw')] if (cot is not None or abort_at is not None) else []
@@ -224,7 +234,7 @@ def execute(case, script=None):
     comp = sc['component']
     ctx = RunCtx(PROP, None)
     ctx.CB_CAP = 10 ** 8
-    ctx.declare_probes('reference_ok', 'env_prior', 'env_midrun', 'env_reuse', 'env_warm', 'env_abort', 'env_unpatched', 'env_twin', 'injections',
+    ctx.declare_probes('reference_ok', 'env_prior', 'env_midrun', 'env_reuse', 'env_warm', 'env_abort', 'env_unpatched', 'env_twin', 'env_nested', 'nested_runs_delivered', 'injections',
                        'aborts_delivered', 'seed_zero', 'string_keys', 'shipped_domain', 'equally_seeded_pairs')
     sched = Scheduler(case['sched']['seed'], mode='P', cap=10 ** 9)
     ctx.sched = sched
@@ -298,6 +308,26 @@ def execute(case, script=None):
                     raise
                 out, _, _ = _run(sc, ctx, sched)
                 compare(out, 'after-an-equal-keyed-twin-problem-in-the-same-process')
+            elif envname == 'nested':
+                gset(11)
+                which = prng.randrange(3)
+                if which == 0:
+                    scB, refB = sc, ref                 # the same scenario on fresh objects: same seed, same keys, same names
+                else:
+                    scB = S.gen_scenario(_pyrandom.Random(f"nested:{prng.getrandbits(40)}"),
+                                         component=comp if which == 1 else None)
+                    scB['seed'] = sc['seed'] if which == 1 else scB['seed']
+                    refB, _, _ = _run(scB, ctx, sched)
+                nest = dict(at=1 + prng.randrange(max(1, ref.get('n_cb', 1))), scenario=scB)
+                out, _, _ = _run(sc, ctx, sched, nest=nest)
+                compare(out, 'another-seeded-run-nested-inside')
+                if 'out' in nest:
+                    ctx.probe('nested_runs_delivered')
+                    ctx.clauses += 1
+                    gotB, wantB = digest_of(nest['out'].get('result', nest['out'].get('exception'))), digest_of(refB.get('result', refB.get('exception')))
+                    if gotB != wantB:
+                        raise Violation('reproducible', f"{scB['component']} run nested inside a call-back of a running {comp}: result differs from the same scenario run on its own "
+                                        f"(seed {scB['seed']}): {_first_diff(refB.get('result'), nest['out'].get('result'))}", dict(key=f"reproducible/{scB['component']}/nested-inside-another-run"))
             elif envname == 'reuse':
                 gset(8)
                 sched.fire('F5_object_reuse')
